@@ -68,6 +68,10 @@ pub struct GraphEngine {
     published_segments: RwLock<Arc<Vec<Arc<CsrSegment>>>>,
     published_labels: RwLock<Arc<LabelSnapshot>>,
     published_node_labels: RwLock<Arc<Vec<Vec<LabelId>>>>,
+    /// Held shared while a reader copies the published fields above (and the node table), and
+    /// exclusively while commit or compaction replaces several of them, so that a snapshot
+    /// never contains part of a transaction or half of a compaction switch.
+    publish_gate: RwLock<()>,
     write_lock: Mutex<()>,
     next_txid: AtomicU64,
     next_segment_id: AtomicU64,
@@ -145,6 +149,7 @@ impl GraphEngine {
             published_segments: RwLock::new(Arc::new(segments)),
             published_labels: RwLock::new(Arc::new(label_snapshot)),
             published_node_labels: RwLock::new(Arc::new(node_labels_snapshot)),
+            publish_gate: RwLock::new(()),
             write_lock: Mutex::new(()),
             next_txid: AtomicU64::new(state.max_txid.saturating_add(1).max(1)),
             next_segment_id: AtomicU64::new(max_seg_id.saturating_add(1).max(1)),
@@ -192,6 +197,19 @@ impl GraphEngine {
     }
 
     pub fn begin_read(&self) -> Snapshot {
+        let _gate = self.publish_gate.read().unwrap();
+        self.begin_read_gated()
+    }
+
+    /// Runs `f` with the publication gate held shared: everything `f` copies belongs to one
+    /// published state.
+    pub(crate) fn with_publish_gate_shared<T>(&self, f: impl FnOnce() -> T) -> T {
+        let _gate = self.publish_gate.read().unwrap();
+        f()
+    }
+
+    /// `begin_read` for callers that already hold the publication gate.
+    pub(crate) fn begin_read_gated(&self) -> Snapshot {
         let runs = self.published_runs.read().unwrap().clone();
         #[cfg(nervusdb_verif)]
         crate::verif::sched("read.after_runs");
@@ -498,7 +516,8 @@ impl GraphEngine {
         #[cfg(nervusdb_verif)]
         crate::verif::sched("compact.after_manifest");
 
-        // 4. Update memory state
+        // 4. Update memory state (one step for readers: see `publish_gate`)
+        let publish_gate = self.publish_gate.write().unwrap();
         self.checkpoint_txid.store(up_to_txid, Ordering::SeqCst);
         self.properties_root.store(current_root, Ordering::SeqCst);
         self.stats_root.store(stats_root, Ordering::SeqCst);
@@ -514,6 +533,7 @@ impl GraphEngine {
             let mut cur_segs = self.published_segments.write().unwrap();
             *cur_segs = new_segments;
         }
+        drop(publish_gate);
         #[cfg(nervusdb_verif)]
         crate::verif::sched("compact.after_install");
 
@@ -1118,7 +1138,9 @@ impl<'a> WriteTxn<'a> {
         let has_label_additions = !self.pending_label_additions.is_empty();
         let has_label_removals = !self.pending_label_removals.is_empty();
 
-        // 3. Apply created nodes to IdMap / Node Index
+        // 3. Apply created nodes to IdMap / Node Index. From here to the publication of the run
+        // readers must see all of the transaction or none of it (see `publish_gate`).
+        let publish_gate = self.engine.publish_gate.write().unwrap();
         {
             let mut idmap = self.engine.idmap.lock().unwrap();
             let mut pager = self.engine.pager.write().unwrap();
@@ -1149,6 +1171,7 @@ impl<'a> WriteTxn<'a> {
         if !run.is_empty() {
             self.engine.publish_run(Arc::new(run));
         }
+        drop(publish_gate);
         #[cfg(nervusdb_verif)]
         crate::verif::sched("commit.after_publish");
 
